@@ -13,6 +13,8 @@ import Gkv.Props.Locks
 import Gkv.Props.C10
 import Gkv.Proofs.CopyRace
 import Gkv.Gen.WriteOrder
+import Gkv.Proofs.FlushPin
+import Gkv.Gen.Sites
 open Std
 
 namespace Gkv.Props.C05
@@ -109,5 +111,63 @@ theorem item_copy_loc_first_breaks :
     before the first `src.loc` in `itemLoc.Copy`); the model's assumption that a location is never
     un-published is `WriteOrder.locations_published_after_bytes` (no `setLoc(nil)`) -/
 theorem item_copy_reads_item_first : Gen.WriteOrder.copyReadsItemFirst = true := by decide
+
+/-! ### Model P: pinning the collections of a store while the mutator replaces handles (F21)
+
+`Model/FlushPin.lean`: `Flush` and `Snapshot` read the collection map once and then pin each
+collection in name order; the one mutating goroutine may at any moment publish versions and
+re-issue `SetCollection` on an existing name, which closes the handle the map held.  A schedule is
+an arbitrary `List Ev`.  The repaired walk (`rootAddRefIfOpen`, start over when a handle turns out
+to be closed) is `run true`, the pinned tree's (`rootAddRef`) is `run false`. -/
+
+/-- no schedule makes the repaired walk touch a closed handle (the nil dereference of F21) -/
+theorem pinning_never_touches_a_closed_handle (n : Nat) (v : Nat → Nat) (es : List Gkv.FlushPin.Ev) :
+    (Gkv.FlushPin.run true (Gkv.FlushPin.init n v) es).panicked = false :=
+  (Gkv.FlushPin.run_inv (Gkv.FlushPin.init_inv n v) es).ok
+
+/-- … and the walk of the pinned tree could: the counterexample schedule of defect F21 -/
+theorem unrepaired_pinning_panics :
+    (Gkv.FlushPin.run false (Gkv.FlushPin.init 2 (fun _ => 0))
+      [.pin, .pin, .swap 1, .pin]).panicked = true := Gkv.FlushPin.unsafe_panics
+
+/-- C05's last clause for the walk: whatever the schedule, collection `b` is pinned in a state no
+    older than the state it had when an earlier-named collection `a` was pinned (`snaps[a]` is the
+    ghost record of every collection's version at that moment), and what is pinned is not newer
+    than the present -/
+theorem pins_taken_in_name_order (n : Nat) (v : Nat → Nat) (es : List Gkv.FlushPin.Ev) :
+    let s := Gkv.FlushPin.run true (Gkv.FlushPin.init n v) es
+    ∀ a b (ha : a < s.snaps.length) (hb : b < s.pinned.length), a ≤ b →
+      (s.snaps[a]) b ≤ s.pinned[b] ∧ s.pinned[b] ≤ s.ver b := by
+  intro s a b ha hb hab
+  have h := Gkv.FlushPin.run_inv (Gkv.FlushPin.init_inv n v) es
+  have hb' : b < s.snaps.length := by rw [h.len_eq]; exact hb
+  have e := h.pin_snap b hb' hb
+  rw [e]
+  exact ⟨h.snap_mono a b ha hb' hab b, h.snap_le b hb' b⟩
+
+/-- the retry loop is not a livelock: from any reachable state, as soon as the mutator leaves the
+    collection map alone for `2n + 2` steps of the walk, every collection is pinned -/
+theorem pinning_completes_once_the_map_is_quiet (n : Nat) (v : Nat → Nat) (es : List Gkv.FlushPin.Ev)
+    (k : Nat) (hk : 2 * n + 2 ≤ k) :
+    (Gkv.FlushPin.run true (Gkv.FlushPin.run true (Gkv.FlushPin.init n v) es) (Gkv.FlushPin.quiet k)).done = true := by
+  have h := Gkv.FlushPin.run_inv (Gkv.FlushPin.init_inv n v) es
+  have hn : (Gkv.FlushPin.run true (Gkv.FlushPin.init n v) es).n = n := Gkv.FlushPin.run_n _ es
+  exact Gkv.FlushPin.quiet_period_completes _ h k (by rw [hn]; exact hk)
+
+/-- the statements above are not vacuous: a schedule on which the walk has to start over (the
+    mutator swaps the handle of collection 1 after the map was copied) and still pins both
+    collections, the second one in its newer version -/
+example :
+    let s := Gkv.FlushPin.run true (Gkv.FlushPin.init 2 (fun _ => 0))
+      [.pin, .pin, .swap 1, .mutate 1, .pin, .pin, .pin, .pin]
+    s.done = true ∧ s.restarts = 1 ∧ s.pinned = [0, 1] ∧ s.panicked = false := by decide
+
+/-- the code side (regenerated `Gen/Sites.lean`): `Flush` and `Snapshot` pin through the function
+    that tests for a closed handle, and neither calls the unguarded `rootAddRef` -/
+theorem flush_and_snapshot_pin_through_the_guarded_function :
+    ("Store.Flush", "rootAddRefIfOpen", "") ∈ Gen.Sites.reclaimSites ∧
+    ("Store.Snapshot", "rootAddRefIfOpen", "") ∈ Gen.Sites.reclaimSites ∧
+    (Gen.Sites.reclaimSites.filter (fun r => r.2.1 == "rootAddRef" &&
+      (r.1 == "Store.Flush" || r.1 == "Store.Snapshot"))) = [] := by decide +kernel
 
 end Gkv.Props.C05
